@@ -37,6 +37,9 @@ WAIT_TABLE = {
         "pre-triaged: WaitList::link is called with the state lock held (write, _memtable_thread); it blocks only when MAX_CONCURRENCY = 65 536 "
         "waiters are linked at once, i.e. that many client threads inside write(); recorded with that reason, not claimed safe beyond it",
     ("LsmTree.compaction", "FileManager.wake_opening"): "open_sst under the compaction lock waits only for a concurrent open of the same file",
+    ("LsmTree.mani", "FileManager.wake_opening"):
+        "LsmTree::from_manifest reads the SST list under mani.read() while the RwLock and the FileManager are still locals of the constructor "
+        "(not yet shared with any thread); the file manager waits only for a concurrent open of the same file",
     ("LsmTree.compaction", "LsmTree.stall"): None,   # the wait hands the compaction guard itself to the condvar (filtered as passed)
 }
 
